@@ -24,9 +24,15 @@ package lang
 //@   ensures [a-pointer-is-looked-at-once] calls(String) == 0 && v != nil ==> calls(Kind) == 1 && calls(Elem) <= 1
 //@ func reprOfValue
 //@   prop C13
+// a nil pointer (a typed-nil key of an error type, the nil *T inside a **T) is rendered like fmt renders it; its
+// Error / String method is never called (a value-receiver method would dereference nil and Get would panic)
+//@   replay lang_repr_nil_error
+//@   ensures [nil-pointer-rendered-like-fmt] calls(Kind) >= 1 && ret(Kind, 0, 1) == 22 && calls(IsNil) >= 1 && ret(IsNil, 0, 1) ==> result == "<nil>" && calls(Error) == 0 && calls(String) == 0 && calls(Interface) == 0
+//@   ensures [methods-never-called-through-a-nil-pointer] calls(Error) + calls(String) >= 1 ==> calls(Kind) >= 1 && !(ret(Kind, 0, 1) == 22 && calls(IsNil) >= 1 && ret(IsNil, 0, 1))
+//@   ensures [everything-else-by-its-content] calls(Kind) == 1 && (ret(Kind, 0, 1) != 22 || (calls(IsNil) == 1 && !ret(IsNil, 0, 1))) ==> calls(Interface) >= 1
 //@   let x = ret(Interface)
-//@   ensures [string-is-itself] typeis(x, string) && calls(Error) == 0 && calls(String) == 0 ==> result == unbox(x, string)
-//@   ensures [int-in-decimal] typeis(x, int) ==> calls(strconv.Itoa) == 1 && arg(strconv.Itoa, 0) == unbox(x, int) && result == ret(strconv.Itoa)
-//@   ensures [int64-in-decimal] typeis(x, int64) ==> calls(strconv.FormatInt) == 1 && arg(strconv.FormatInt, 0) == unbox(x, int64) && arg(strconv.FormatInt, 1) == 10 && result == ret(strconv.FormatInt)
-//@   ensures [uint64-in-decimal] typeis(x, uint64) ==> calls(strconv.FormatUint) == 1 && arg(strconv.FormatUint, 0) == unbox(x, uint64) && arg(strconv.FormatUint, 1) == 10 && result == ret(strconv.FormatUint)
-//@   ensures [bool-as-word] typeis(x, bool) ==> calls(strconv.FormatBool) == 1 && arg(strconv.FormatBool, 0) == unbox(x, bool) && result == ret(strconv.FormatBool)
+//@   ensures [string-is-itself] calls(Interface) == 1 && typeis(x, string) && calls(Error) == 0 && calls(String) == 0 ==> result == unbox(x, string)
+//@   ensures [int-in-decimal] calls(Interface) == 1 && typeis(x, int) ==> calls(strconv.Itoa) == 1 && arg(strconv.Itoa, 0) == unbox(x, int) && result == ret(strconv.Itoa)
+//@   ensures [int64-in-decimal] calls(Interface) == 1 && typeis(x, int64) ==> calls(strconv.FormatInt) == 1 && arg(strconv.FormatInt, 0) == unbox(x, int64) && arg(strconv.FormatInt, 1) == 10 && result == ret(strconv.FormatInt)
+//@   ensures [uint64-in-decimal] calls(Interface) == 1 && typeis(x, uint64) ==> calls(strconv.FormatUint) == 1 && arg(strconv.FormatUint, 0) == unbox(x, uint64) && arg(strconv.FormatUint, 1) == 10 && result == ret(strconv.FormatUint)
+//@   ensures [bool-as-word] calls(Interface) == 1 && typeis(x, bool) ==> calls(strconv.FormatBool) == 1 && arg(strconv.FormatBool, 0) == unbox(x, bool) && result == ret(strconv.FormatBool)
